@@ -136,11 +136,26 @@ class InstanceReport:
         # second engine for polynomial identities: abstract uninterpreted applications to fresh constants
         # (sound for unsat) and decide with nlsat
         t1 = time.time()
-        r2 = nlsat_unsat(ctx.constraints() + [negated], timeout_ms or ctx.timeout_ms)
+        r2, m2, nabs = nlsat_solve(ctx.constraints() + [negated], timeout_ms or ctx.timeout_ms)
         self.solver_ms += (time.time() - t1) * 1000
         if r2 == "unsat":
             self.discharged += 1
             return "unsat"
+        if r2 == "sat" and m2 is not None and witness is not None:
+            # a model of the abstraction is only a CANDIDATE (like every witness under uninterpreted symbols): the values of the
+            # inputs are taken from it and the replay on the real library decides
+            try:
+                spec = witness(m2)
+            except Exception as e:   # noqa
+                spec = None
+                self.errors.append(f"{label}: witness construction failed: {type(e).__name__}: {e}")
+            if spec is not None:
+                spec.setdefault("label", label)
+                spec.setdefault("instance", self.name)
+                if key:
+                    spec.setdefault("key", key)
+                self.candidates.append(spec)
+                return "sat"
         self.inconclusive.append(f"{label}: solver returned unknown ({ctx.solver.reason_unknown()}; nlsat on the UF-abstraction: {r2})")
         return "unknown"
 
@@ -318,12 +333,19 @@ def abstract_ufs(exprs):
     return [walk(e) for e in exprs], table
 
 
-def nlsat_unsat(constraints, timeout_ms=20000):
+def nlsat_solve(constraints, timeout_ms=20000):
+    """-> (verdict, model or None, number of uninterpreted applications abstracted away).  A 'sat' is a genuine model only
+    when nothing had to be abstracted (pure polynomial real arithmetic)."""
     try:
-        abs_c, _ = abstract_ufs(constraints)
+        abs_c, table = abstract_ufs(constraints)
         s = z3.Then("simplify", "purify-arith", "qfnra-nlsat").solver()
         s.set("timeout", int(timeout_ms))
         s.add(*abs_c)
-        return str(s.check())
+        r = s.check()
+        return str(r), (s.model() if r == z3.sat else None), len(table)
     except z3.Z3Exception as e:
-        return f"error: {e}"
+        return f"error: {e}", None, -1
+
+
+def nlsat_unsat(constraints, timeout_ms=20000):
+    return nlsat_solve(constraints, timeout_ms)[0]
